@@ -197,6 +197,8 @@ def run(run):
             qs = [q for q in recs[k]['queries'][0] if len(q['result']) > 3][:3]
             run.sample({'ids': recs[k]['b']['ids'], 'cmp': recs[k]['b']['cmp'], 'queries': [(tree.path_str(q['path']), q['result']) for q in qs]}, limit=3)
         run.notes['queries_evaluated_on_implementation'] = total_q
+        from .. import cmd
+        cmd.run_commands(run, wd, ['query'], seed())          # the query command: formats, first message of each file (Cmd.tla)
     finally:
         rm_workdir(wd)
     run.assumptions = ['paths are generated from the specification tree of each subset (depth bound in the evidence) and evaluated per subset through the @[s] selector',
